@@ -67,9 +67,14 @@ class Shapes(object):
         _N[0] += 1
         uid = "%s_%d" % (tag, _N[0])
         names = ["RED", "GREEN", "BLUE", "DARK_GREY", "X1"][:r.randint(2, 5)]
-        kind = r.choice(["int", "str"])
-        # member values include the falsy ones (0, "") - an enum member is a value like any other
-        self.Enum = type("JE" + uid, (SerializableEnum,), {nm: (i * 3 if kind == "int" else ("v%d" % i if i else "")) for i, nm in enumerate(names)})
+        kind = r.choice(["int", "str", "str-crossed"])
+        # member values include the falsy ones (0, "") - an enum member is a value like any other; in the "crossed" kind the VALUE
+        # of a member is the NAME of another member (NORTH = "SOUTH", SOUTH = "NORTH"): JSON carries names, never values
+        if kind == "str-crossed":
+            vals = {nm: names[(i + 1) % len(names)] for i, nm in enumerate(names)}
+        else:
+            vals = {nm: (i * 3 if kind == "int" else ("v%d" % i if i else "")) for i, nm in enumerate(names)}
+        self.Enum = type("JE" + uid, (SerializableEnum,), vals)
         self.enum_members = [getattr(self.Enum, nm) for nm in names]
         self.Leaf = type("JL" + uid, (Serializable,), {"__annotations__": {"n": int, "s": str}, "n": 0, "s": ""})
         self.Enum_ = self.Enum
